@@ -1,7 +1,8 @@
 (* C20 - Configuration is validated, not silently reinterpreted.
    This file contains only the property theorems (each closed by [exact]) and Print Assumptions.
-   The model follows the REPAIRED code (fix-C20: ParseUint for ports, blockInterval >= 1); the
-   behaviour before the repair is kept under explicitly named [old_] definitions. *)
+   The model follows the REPAIRED code (fix-C20: ParseUint for ports, blockInterval >= 1; fix-C20b: the
+   chain id must be an integer in 0..255); the behaviour before the repair is kept under explicitly
+   named [old_] definitions. *)
 From Coq Require Import List ZArith NArith Bool String.
 Import ListNotations.
 From SygmaV Require Import Model.C20 Proofs.C20.
@@ -91,10 +92,12 @@ Theorem C20_with_default_written : forall d v, v <> 0 -> with_default d (Some v)
 Proof. exact with_default_written. Qed.
 Print Assumptions C20_with_default_written.
 
-(* ... a configuration is rejected exactly for a missing required field or a negative setting ... *)
+(* ... a configuration is rejected exactly for a missing required field, an id that is no domain id or a
+   negative setting ... *)
 Theorem C20_validate_none_iff : forall c,
   validate c = None <->
   (ci_req_missing c = true \/
+   ~ (exists z, ci_id c = JNum z /\ 0 <= z <= 255) \/
    (exists v, ci_interval c = Some v /\ v < 0) \/
    (uses_confs (ci_kind c) = true /\ exists v, ci_confs c = Some v /\ v < 0)).
 Proof. exact validate_none_iff. Qed.
@@ -106,6 +109,43 @@ Theorem C20_start_block_total : forall c cfg, validate c = Some cfg ->
             z mod cc_interval cfg = 0 /\ z <= cc_start cfg < z + cc_interval cfg.
 Proof. exact start_block_total. Qed.
 Print Assumptions C20_start_block_total.
+
+(* CHAIN IDS.  A domain id is one byte on the wire.  A written id is accepted iff it is an INTEGER in
+   0..255 (the float spelling 1.0 of an integer is that integer), and then as itself: 257, 65537, 1.5,
+   -1, "1" are rejected, not wrapped / truncated / converted ... *)
+Theorem C20_chain_id_accept_iff : forall v i,
+  accept_id v = Some i <-> exists z, v = JNum z /\ 0 <= z <= 255 /\ i = z.
+Proof. exact accept_id_iff. Qed.
+Print Assumptions C20_chain_id_accept_iff.
+
+(* ... so the id of every accepted chain configuration is the written id and fits the byte. *)
+Theorem C20_chain_id_value : forall c cfg, validate c = Some cfg ->
+  ci_id c = JNum (cc_id cfg) /\ 0 <= cc_id cfg <= 255.
+Proof. exact chain_id_value. Qed.
+Print Assumptions C20_chain_id_value.
+
+(* The code before the repair (mapstructure narrowing into the uint8), for every non-negative id, and the
+   witnesses that it violates the property: 257 was accepted as domain 1, 3/2 as domain 1. *)
+Theorem C20_old_chain_id_value : forall z, 0 <= z -> old_accept_id (JNum z) = Some (z mod 256).
+Proof. exact old_accept_id_value. Qed.
+Print Assumptions C20_old_chain_id_value.
+
+Theorem C20_old_chain_id_fraction_value : forall n d, 0 <= n ->
+  old_accept_id (JFrac n d) = Some ((n / Zpos d) mod 256).
+Proof. exact old_accept_id_frac. Qed.
+Print Assumptions C20_old_chain_id_fraction_value.
+
+Theorem C20_old_chain_id_refuted :
+  exists c cfg, ci_id c = JNum 257 /\ old_id_validate c = Some cfg /\ cc_id cfg = 1 /\
+                chain_ok c (old_id_model_chain c) = false.
+Proof. exact old_chain_id_refuted. Qed.
+Print Assumptions C20_old_chain_id_refuted.
+
+Theorem C20_old_chain_id_fraction_refuted :
+  exists c cfg, ci_id c = JFrac 3 2 /\ old_id_validate c = Some cfg /\ cc_id cfg = 1 /\
+                chain_ok c (old_id_model_chain c) = false.
+Proof. exact old_chain_id_fraction_refuted. Qed.
+Print Assumptions C20_old_chain_id_fraction_refuted.
 
 (* Before the repair a negative interval was accepted. *)
 Theorem C20_old_interval_positive_refuted :
@@ -119,6 +159,8 @@ Proof. exact chain_ok_model. Qed.
 Print Assumptions C20_chain_ok_model.
 
 Theorem C20_chain_ok_sound : forall c cfg r, chain_ok c (Some (cfg, r)) = true ->
+  (forall z, ci_id c = JNum z -> cc_id cfg = z /\ 0 <= z <= 255) /\
+  (forall n d, ci_id c <> JFrac n d) /\
   1 <= cc_interval cfg /\
   (uses_confs (ci_kind c) = true -> 1 <= cc_confs cfg) /\
   (forall v, ci_interval c = Some v -> v <> 0 -> cc_interval cfg = v) /\
@@ -130,6 +172,7 @@ Print Assumptions C20_chain_ok_sound.
 
 Theorem C20_chain_ok_rejects : forall c, chain_ok c None = true ->
   ci_req_missing c = true \/
+  ~ (exists z, ci_id c = JNum z /\ 0 <= z <= 255) \/
   (exists v, ci_interval c = Some v /\ v < 1) \/
   (uses_confs (ci_kind c) = true /\ exists v, ci_confs c = Some v /\ v < 1).
 Proof. exact chain_ok_rejects. Qed.
@@ -325,9 +368,16 @@ Example C20_nonvacuous :
   parse_port "65535" = Some 65535 /\ parse_port "65536" = None /\ parse_port "-1" = None /\
   parse_port "1" = Some 1 /\ old_parse_port "-1" = Some 65535 /\ old_parse_port "32768" = None /\
   parse_duration "5m" = Some 300000000000 /\ parse_duration "9223372036854775808ns" = None /\
-  validate (mkChainIn Evm false (Some 2) (Some 1) (Some 7)) = Some (mkChainCfg 2 1 7) /\
-  validate (mkChainIn Sub false (Some (-5)) None None) = None /\
-  model_chain (mkChainIn Btc false None None (Some 13)) = Some (mkChainCfg 5 10 13, Val 10) /\
+  validate (mkChainIn Evm false (JNum 3) (Some 2) (Some 1) (Some 7)) = Some (mkChainCfg 3 2 1 7) /\
+  validate (mkChainIn Sub false (JNum 1) (Some (-5)) None None) = None /\
+  model_chain (mkChainIn Btc false (JNum 255) None None (Some 13)) = Some (mkChainCfg 255 5 10 13, Val 10) /\
+  accept_id (JNum 0) = Some 0 /\ accept_id (JNum 255) = Some 255 /\ accept_id (JNum 256) = None /\
+  accept_id (JNum 257) = None /\ accept_id (JNum (-1)) = None /\ accept_id (JFrac 3 2) = None /\
+  accept_id (JStr "1") = None /\ old_accept_id (JNum 257) = Some 1 /\ old_accept_id (JNum 65537) = Some 1 /\
+  old_accept_id (JFrac 511 2) = Some 255 /\ old_accept_id (JNum (-1)) = None /\
+  validate (mkChainIn Evm false (JNum 257) None None None) = None /\
+  chain_ok (mkChainIn Evm false (JNum 257) None None None) (Some (mkChainCfg 1 5 10 0, Val 0)) = false /\
+  chain_ok (mkChainIn Evm false (JNum 255) None None None) None = false /\
   wf_merge [[("id", JNum 1); ("type", JStr "evm"); ("a", JNum 3)]]
            [[("id", JNum 1); ("a", JNum 9); ("b", JBool true)]] = true /\
   process [[("id", JNum 1); ("type", JStr "evm"); ("a", JNum 3)]]
@@ -339,10 +389,11 @@ Example C20_nonvacuous :
   = Some [[("id", JNum (-255)); ("type", JStr "evm"); ("b", JStr "x")]] /\
   merge_ok [[("id", JNum 257); ("type", JStr "evm")]] [[("id", JNum 1); ("a", JNum 9)]]
            (Some [[("id", JNum 257); ("type", JStr "evm"); ("a", JNum 9)]]) = false /\
-  use_ok (Some (mkChainCfg 5 10 200, Val 200)) (Some (mkAfter (mkChainCfg 0 10 200) true [Panic])) = false /\
-  use_ok (Some (mkChainCfg 5 10 203, Val 200)) (Some (mkAfter (mkChainCfg 3 10 203) true [Val 201])) = false /\
-  use_ok (model_chain (mkChainIn Btc false None None (Some 13)))
-         (model_after (model_chain (mkChainIn Btc false None None (Some 13))) 2) = true /\
+  use_ok (Some (mkChainCfg 1 5 10 200, Val 200)) (Some (mkAfter (mkChainCfg 1 0 10 200) true [Panic])) = false /\
+  use_ok (Some (mkChainCfg 1 5 10 203, Val 200)) (Some (mkAfter (mkChainCfg 1 3 10 203) true [Val 201])) = false /\
+  use_ok (Some (mkChainCfg 1 5 10 203, Val 200)) (Some (mkAfter (mkChainCfg 2 5 10 203) true [Val 200])) = false /\
+  use_ok (model_chain (mkChainIn Btc false (JNum 1) None None (Some 13)))
+         (model_after (model_chain (mkChainIn Btc false (JNum 1) None None (Some 13))) 2) = true /\
   load_strings [(Required, Some "dGVzdGtleQ=="); (Defaulted "out.log", None); (Plain, Some "http://h/p?a=b&c_d=SYG_X")]
   = Some ["dGVzdGtleQ=="; "out.log"; "http://h/p?a=b&c_d=SYG_X"] /\
   load_strings [(Required, Some ""); (Plain, Some "x")] = None /\
